@@ -1404,13 +1404,19 @@ class PCE500Emulator:
             "cs_right_count": getattr(self.lcd, "cs_right_count", 0),
         }
         payload = bytearray()
-        for chip_snap in chips:
+        live_chips = list(getattr(self.lcd, "chips", []) or [])
+        for index, chip_snap in enumerate(chips):
+            live_state = getattr(
+                live_chips[index] if index < len(live_chips) else None, "state", None
+            )
             meta["chips"].append(
                 {
                     "on": chip_snap.on,
                     "start_line": chip_snap.start_line,
                     "page": chip_snap.page,
                     "y_address": chip_snap.y_address,
+                    # BUSY is protocol state too: the next status read reports it.
+                    "busy": bool(getattr(live_state, "busy", False)),
                     "instruction_count": chip_snap.instruction_count,
                     "data_write_count": chip_snap.data_write_count,
                 }
